@@ -121,7 +121,8 @@ class _HandAw:
 def gen_stack(ch):
     sc = {"entries": [], "block_raises": ch.chance(1, 2)}
     for i in range(ch.between(1, 4)):
-        sc["entries"].append({"name": "e%d" % i, "method": ("push", "callback")[ch.draw(2)],
+        sc["entries"].append({"name": "e%d" % i, "method": ("push", "callback", "enter")[ch.weighted([3, 3, 2])],
+                              "enter_fails": ch.chance(1, 6),
                               "flavour": EXIT_FLAVOURS[ch.draw(len(EXIT_FLAVOURS))],
                               "behave": ("falsy", "truthy", "raise")[ch.weighted([4, 2, 1])], "susp": ch.draw(3)})
     return sc
@@ -176,11 +177,44 @@ async def run_stack(sc, sim, flavoured, log, res):
             return Obj()
         return ObjAw()
 
+    def make_cm(e):
+        # the same context manager, as a plain one (baseline) or an asynchronous one (flavoured)
+        class SyncCM:
+            def __enter__(self):
+                log.append(("enter", e["name"]))
+                if e["enter_fails"]:
+                    raise _StackError(("enter", e["name"]))
+                return e["name"]
+
+            def __exit__(self, et, ev, tb):
+                return logic(e, ev, ())
+
+        class AsyncCM:
+            async def __aenter__(self):
+                for _ in range(e["susp"]):
+                    await sim.suspend(PAUSE, None, "enter")
+                log.append(("enter", e["name"]))
+                if e["enter_fails"]:
+                    raise _StackError(("enter", e["name"]))
+                return e["name"]
+
+            async def __aexit__(self, et, ev, tb):
+                for _ in range(e["susp"]):
+                    await sim.suspend(PAUSE, None, "exit")
+                return logic(e, ev, ())
+
+        return AsyncCM() if (flavoured and e["flavour"] != "def") else SyncCM()
+
     try:
         stack = L.ExitStack()
         res["type_ok"] = hasattr(stack, "__aenter__") and hasattr(stack, "__aexit__")
         async with stack:
             for e in sc["entries"]:
+                if e["method"] == "enter":
+                    got = await stack.enter_context(make_cm(e))
+                    if got != e["name"]:
+                        res["type_ok"] = False
+                    continue
                 fn = make(e)
                 if e["method"] == "push":
                     back = stack.push(fn)
